@@ -1,5 +1,6 @@
 (* Property C15 — writer APIs validate their parameters and honour the declared length contract. *)
-From FlacWriters Require Import Writers Params_proofs Params_sweeps.
+From FlacWriters Require Import Writers Lists_proofs Params_proofs Params_sweeps Finalize_proofs Encoder_proofs
+     Seek_proofs Finish_proofs Newok_proofs Run_proofs Cases.
 Open Scope N_scope.
 
 (* option setters: never Panic, Ok exactly on the documented range, Err outside *)
@@ -30,3 +31,114 @@ Theorem C15_sweep_lpc : sweep_lpc = true. Proof. exact sweep_lpc_ok. Qed.
 Theorem C15_sweep_po : sweep_po = true. Proof. exact sweep_po_ok. Qed.
 Theorem C15_sweep_new : sweep_new = true. Proof. exact sweep_new_ok. Qed.
 Theorem C15_sweep_partitions : sweep_partitions = true. Proof. exact sweep_partitions_ok. Qed.
+
+(* The constructors themselves, for every Options value the public API can build (options_wf:
+   block size 16..65535, seek interval 1..255 s or >= 1 frames, user blocks that fit a block):
+   never Panic, Ok exactly on the documented argument set, Err outside it. *)
+Theorem C15_new_sample : forall p prefix o rate bps ch total, options_wf o ->
+  is_ok (sample_new p prefix o rate bps ch total) = documented_args WSample rate bps ch total /\
+  is_err (sample_new p prefix o rate bps ch total) = negb (documented_args WSample rate bps ch total).
+Proof. exact sample_new_spec. Qed.
+Theorem C15_new_byte : forall p en prefix o rate bps ch total, options_wf o ->
+  is_ok (byte_new p en prefix o rate bps ch total) = documented_args WByte rate bps ch total /\
+  is_err (byte_new p en prefix o rate bps ch total) = negb (documented_args WByte rate bps ch total).
+Proof. exact byte_new_spec. Qed.
+Theorem C15_new_channel : forall p prefix o rate bps ch total, options_wf o ->
+  is_ok (channel_new p prefix o rate bps ch total) = documented_args WChannel rate bps ch total /\
+  is_err (channel_new p prefix o rate bps ch total) = negb (documented_args WChannel rate bps ch total).
+Proof. exact channel_new_spec. Qed.
+
+(* options_wf is what the setters produce from the presets *)
+Theorem C15_options_wf_presets : options_wf options_default /\ options_wf options_fast /\ options_wf options_best.
+Proof. exact (conj options_default_wf (conj options_fast_wf options_best_wf)). Qed.
+Theorem C15_options_wf_setters : forall o, options_wf o ->
+  (forall v o', v < 65536 -> options_block_size o v = Ok o' -> options_wf o') /\
+  (forall v o', options_max_lpc_order o v = Ok o' -> options_wf o') /\
+  (forall v o', options_max_partition_order o v = Ok o' -> options_wf o') /\
+  (forall v o', options_padding o v = Ok o' -> options_wf o') /\
+  options_wf (options_no_padding o) /\
+  (forall s, s < 256 -> options_wf (options_seektable_seconds o s)) /\
+  (forall n, options_wf (options_seektable_frames o n)) /\
+  options_wf (options_no_seektable o).
+Proof.
+  intros o H.
+  refine (conj _ (conj _ (conj _ (conj _ (conj _ (conj _ (conj _ _))))))); intros.
+  - eapply options_block_size_wf; eauto.
+  - eapply options_max_lpc_order_wf; eauto.
+  - eapply options_max_partition_order_wf; eauto.
+  - eapply options_padding_wf; eauto.
+  - apply options_no_padding_wf; auto.
+  - apply options_seektable_seconds_wf; auto.
+  - apply options_seektable_frames_wf; auto.
+  - apply options_no_seektable_wf; auto.
+Qed.
+
+(* the two capacity guards of the codec core that depend on option values hold for every
+   documented value (the partition-list guard additionally by the complete sweep above) *)
+Theorem C15_lpc_guard : forall p lpc len, 1 <= lpc <= 32 -> autocorrelate_guard p lpc len = Ok tt.
+Proof. exact autocorrelate_guard_ok. Qed.
+Theorem C15_partition_guard : forall bs res o, 1 <= bs -> res <= bs -> o <= 6 -> 2 ^ o <= bs ->
+  bs mod 2 ^ o = 0 -> exists n, partitions_at bs res o = Ok n /\ n <= 64.
+Proof. exact partitions_at_le. Qed.
+
+(* Declared-length contract (FlacSampleWriter), soundness: a successful run wrote exactly the
+   declared number of PCM frames — so over- and under-filling are both reported as an error (or,
+   in a debug build only, as the overflow of a 2^64 counter) — and STREAMINFO records the count of
+   whole PCM frames, which lies in 1..2^36-1, whether or not a total was declared. *)
+Theorem C15_length_contract_sample :
+  forall enc_block md5 p prefix o rate bps ch total w chunks f,
+    (forall l, length (md5 l) = 16%nat) ->
+    options_wf o -> sample_new p prefix o rate bps ch total = Ok w ->
+    sample_run enc_block md5 p w chunks = Ok f -> counters_fit (f_enc f) ->
+    exists cs r, drain (N.to_nat (ch * o_block_size o)) (concat chunks) = (cs, r) /\
+      let written := o_block_size o * N.of_nat (length cs) + N.of_nat (length r) / ch in
+      si_total (f_si f) = Some written /\ 1 <= written < MAX_SAMPLES /\
+      match total with Some t => t = ch * written | None => True end.
+Proof. intros. eapply sample_contract; eauto. Qed.
+
+(* what finalize does with the count, for any front-end (the Encoder): on a well-formed encoder
+   it never panics, succeeds exactly when the count is acceptable, fails otherwise *)
+Theorem C15_finalize_contract : forall md5 p e,
+  (forall l, length (md5 l) = 16%nat) ->
+  enc_inv e -> enc_static e -> frames_nonempty e ->
+  match si_total (e_si e) with
+  | Some t => if t =? e_samples_written e then is_ok (encoder_finalize md5 p e) = true
+              else is_err (encoder_finalize md5 p e) = true
+  | None => if (1 <=? e_samples_written e) && (e_samples_written e <? MAX_SAMPLES)
+            then is_ok (encoder_finalize md5 p e) = true
+            else is_err (encoder_finalize md5 p e) = true
+  end.
+Proof.
+  intros md5 p e Hm I S Fn. pose proof (encoder_finalize_spec md5 Hm p e I S Fn) as Sp.
+  unfold finalize_total in Sp. destruct (si_total (e_si e)) as [t|].
+  - destruct (t =? e_samples_written e).
+    + destruct Sp as (f & sel & -> & _). reflexivity.
+    + rewrite Sp. reflexivity.
+  - destruct (N.ltb_spec (e_samples_written e) MAX_SAMPLES).
+    + destruct (N.eqb_spec (e_samples_written e) 0) as [E|E].
+      * rewrite E. cbn. rewrite Sp. reflexivity.
+      * destruct (N.leb_spec 1 (e_samples_written e)); [|lia]. cbn. destruct Sp as (f & sel & -> & _). reflexivity.
+    + rewrite andb_false_r. rewrite Sp. reflexivity.
+Qed.
+
+(* the over-fill check of Encoder::encode: a frame that would take the count past the declared
+   total is refused before anything is written *)
+Theorem C15_overfill_refused : forall enc_block p e b t,
+  si_total (e_si e) = Some t -> e_samples_written e + block_len b < 2 ^ 64 ->
+  t < e_samples_written e + block_len b ->
+  encoder_encode enc_block p e b = Err EExcessiveTotalSamples.
+Proof.
+  intros enc_block p e b t Ht Hfit Hover. unfold encoder_encode, u64_add.
+  destruct (N.ltb_spec (e_samples_written e + block_len b) (2 ^ 64)); [|lia]. cbn [bind].
+  rewrite Ht. destruct (N.ltb_spec t (e_samples_written e + block_len b)); [reflexivity|lia].
+Qed.
+
+(* non-vacuity: a declared total that is over-, under- and exactly filled *)
+Example C15_contract_nonvacuous :
+  let o := match options_block_size options_default 16 with Ok o => o | _ => options_default end in
+  fst (run_c15 Release KS (Ok o) 44100 16 2 (Some 80) [80]) = [0; 0; 0; 0] /\      (* exact: all Ok *)
+  fst (run_c15 Release KS (Ok o) 44100 16 2 (Some 80) [78]) = [0; 0; 0; 1] /\      (* under: Err at finalize *)
+  fst (run_c15 Release KS (Ok o) 44100 16 2 (Some 80) [64; 34]) = [0; 0; 0; 1] /\  (* over: reported *)
+  fst (run_c15 Release KS (Ok o) 44100 16 2 (Some 32) [64]) = [0; 0; 1] /\         (* over at the write that crosses *)
+  snd (run_c15 Release KS (Ok o) 44100 16 2 None [78]) = Some 39.                  (* undeclared: recorded *)
+Proof. vm_compute. repeat split; reflexivity. Qed.
